@@ -4786,6 +4786,15 @@ impl M2Model {
                 use std::collections::hash_map::Entry;
 
                 for event_raw in &self.raw_data.event_data {
+                    // Map ranges offset (skip if already mapped - shared data).
+                    // Same order as the write loop below: ranges, then timestamps.
+                    if !event_raw.ranges.is_empty()
+                        && let Entry::Vacant(e) = offset_map.entry(event_raw.original_ranges_offset)
+                    {
+                        e.insert(event_data_offset);
+                        event_data_offset += event_raw.ranges.len() as u32;
+                    }
+
                     // Map timestamps offset (skip if already mapped - shared data)
                     if !event_raw.timestamps.is_empty()
                         && let Entry::Vacant(e) =
